@@ -93,7 +93,9 @@ static Content deliver(const Scn &s, int path, const std::function<Bytes(uint64_
         return got; }
     // asynchronous service
     KSI_AsyncService *as = nullptr; if (aggr) KSI_SigningAsyncService_new(ctx, &as); else KSI_ExtendingAsyncService_new(ctx, &as);
-    KSI_AsyncService_setEndpoint(as, aggr ? "ksi+tcp://agg.example.test:3333" : "ksi+tcp://ext.example.test:4444", s.login.c_str(), s.key.c_str());
+    // half of the asynchronous scenarios give the login id inside the URI (with another key there) and only the key as an explicit argument: the explicit key is the endpoint key
+    if (s.key.size() % 2 == 1) { std::string u = std::string("ksi+tcp://") + s.login + ":uriKey0@" + (aggr ? "agg.example.test:3333" : "ext.example.test:4444"); KSI_AsyncService_setEndpoint(as, u.c_str(), nullptr, s.key.c_str()); stats().count("async:login-in-uri-key-explicit"); }
+    else KSI_AsyncService_setEndpoint(as, aggr ? "ksi+tcp://agg.example.test:3333" : "ksi+tcp://ext.example.test:4444", s.login.c_str(), s.key.c_str());
     KSI_AsyncHandle *hnd = nullptr; int res = KSI_UNKNOWN_ERROR;
     if (aggr) { KSI_AggregationReq *rq = nullptr; KSI_AggregationReq_new(ctx, &rq); if (conf) { KSI_Config *cf = nullptr; KSI_Config_new(ctx, &cf); KSI_AggregationReq_setConfig(rq, cf); } else { KSI_DataHash *dh = nullptr; KSI_DataHash_fromImprint(ctx, s.doc.data(), s.doc.size(), &dh); KSI_AggregationReq_setRequestHash(rq, dh); }
         res = KSI_AsyncAggregationHandle_new(ctx, rq, &hnd); if (res != KSI_OK) KSI_AggregationReq_free(rq); }
